@@ -4,7 +4,7 @@
 # On success stores it as /verif/seeded/<name>/ (patch.diff, demo_test.go, notes.md, meta.json).
 set -u
 export GOFLAGS=-mod=mod GOPROXY=off GOSUMDB=off GOTOOLCHAIN=local
-id="$1"; name="${2:-$1}"; wt="/tmp/mut/$name"; out="$wt/out"
+id="$1"; name="${2:-$1}"; wt="${MUTDIR:-/tmp/mut}/$name"; out="$wt/out"
 [ -f "$out/patch.diff" ] || { echo "no patch for $name"; exit 2; }
 demo_path=$(head -n 3 "$out/demo_test.go" | grep -oE '[A-Za-z0-9_/.-]*zz_[A-Za-z0-9_]*_test\.go' | head -n1 | sed "s,^/*,,")
 [ -n "$demo_path" ] || demo_path="zz_demo_test.go"
@@ -27,7 +27,7 @@ rm -f "$demo_path"
 go test -vet=off -count=1 -timeout 25m $(go list ./... | grep -v '/out$') >>"$log" 2>&1; suite_rc=$?
 echo "$name: demo clean rc=$clean_rc (want 0), demo mutated rc=$mut_rc (want !=0), suite with patch rc=$suite_rc (want 0)"
 if [ $clean_rc -eq 0 ] && [ $mut_rc -ne 0 ] && [ $suite_rc -eq 0 ]; then
-  d="/verif/seeded/$name"; mkdir -p "$d"
+  d="/verif/seeded/${SEEDNAME:-$name}"; mkdir -p "$d"
   cp "$out/patch.diff" "$out/demo_test.go" "$d/"; [ -f "$out/notes.md" ] && cp "$out/notes.md" "$d/"
   EXTRA="$extra" python3 - "$d" "$id" "$demo_path" "$runpat" <<'PY'
 import json,sys,os
